@@ -361,6 +361,11 @@ func (dec *Decoder) convertReference(o interface{}, p interface{}) {
 
 // ResetReader reuse decoder instance by specifying another reader.
 func (dec *Decoder) ResetReader(reader io.Reader) *Decoder {
+	if dec.reader == nil {
+		// the buffer is the byte slice of the last ResetBytes or NewDecoder: it belongs to
+		// the caller and must not be filled from the reader
+		dec.buf = nil
+	}
 	dec.reader = reader
 	dec.granted = 0
 	dec.head = 0
